@@ -1784,6 +1784,118 @@ static void wlPresolve(Ctx& c, int nexec, int len)
    }
 }
 
+// ---------------------------------------------------------------- C13: file readers on arbitrary input
+// Seed files: files written by SoPlex itself from generated LPs and hand-written templates that use the rarer grammar
+// features; each is read unchanged (the expected LP is known) and after byte-level / line-level mutations.  A read must
+// return; afterwards the object must be self-consistent and usable: projection, solve, clear, load a witnessed LP, solve.
+#include <signal.h>
+static void onAlarm(int) { crashLine("reader did not return within 10 s (hang)"); _exit(0); }
+struct SeedFile { std::string ext, text, expect; };                 // expect: JSON of the LP the unmutated text denotes ("" = unknown)
+static std::vector<SeedFile> handWritten()
+{
+   std::vector<SeedFile> v;
+   v.push_back({".mps", "NAME          TEMPL1\nROWS\n N  obj\n E  r1\n E  r2\n L  r3\n G  r4\n E  r5\nCOLUMNS\n    x         obj       1.0   r1        1.0\n    x         r2        1.0   r3        1.0\n    x         r4        1.0   r5        2.0\n    y         obj       2.0   r2        1.0\n    y         r5        1.0\nRHS\n    RHS       r1        4.0   r2        1.0\n    RHS       r3        3.0   r4        1.0\n    RHS       r5        10.0\nRANGES\n    RNG       r1        2.0   r2        -2.0\n    RNG       r3        1.5   r4        2.5\n    RNG       r5        5.0\nBOUNDS\n UP BND       x         4.0\n MI BND       y\n UP BND       y         8.0\nENDATA\n",
+      "{\"rows\":[[[0,\"1\"]],[[0,\"1\"],[1,\"1\"]],[[0,\"1\"]],[[0,\"1\"]],[[0,\"2\"],[1,\"1\"]]],\"lhs\":[\"4\",\"-1\",\"3/2\",\"1\",\"10\"],\"rhs\":[\"6\",\"1\",\"3\",\"7/2\",\"15\"],\"lo\":[\"0\",\"-inf\"],\"up\":[\"4\",\"8\"],\"obj\":[\"1\",\"2\"],\"sense\":-1}"});
+   v.push_back({".mps", "NAME          TEMPL2\nOBJSENSE\n    MAX\nROWS\n N  cost\n L  c1\n G  c2\nCOLUMNS\n    a         cost      3.0   c1        1.0\n    b         cost      -1.5  c1        2.0\n    b         c2        1.0\n    c         c2        -1.0\nRHS\n    RHS       c1        8.0   c2        -2.0\n    RHS       cost      -5.0\nBOUNDS\n FR BND       a\n FX BND       b         2.0\n LO BND       c         -3.0\n PL BND       c\nENDATA\n",
+      "{\"rows\":[[[0,\"1\"],[1,\"2\"]],[[1,\"1\"],[2,\"-1\"]]],\"lhs\":[\"-inf\",\"-2\"],\"rhs\":[\"8\",\"inf\"],\"lo\":[\"-inf\",\"2\",\"-3\"],\"up\":[\"inf\",\"2\",\"inf\"],\"obj\":[\"3\",\"-3/2\",\"0\"],\"sense\":1}"});
+   v.push_back({".lp", "\\ a comment line\nMaximize\n obj: 2 x1 + 3 x2 - x3\nSubject To\n c1: x1 + x2 <= 10\n c2: - x1 + 2 x3 >= -4\n c3: x2 - x3 >= -2\n c4: x1 + x2 + x3 = 7\nBounds\n x1 <= 8\n -5 <= x2 <= 5\n x3 free\nEnd\n",
+      "{\"rows\":[[[0,\"1\"],[1,\"1\"]],[[0,\"-1\"],[2,\"2\"]],[[1,\"1\"],[2,\"-1\"]],[[0,\"1\"],[1,\"1\"],[2,\"1\"]]],\"lhs\":[\"-inf\",\"-4\",\"-2\",\"7\"],\"rhs\":[\"10\",\"inf\",\"inf\",\"7\"],\"lo\":[\"0\",\"-5\",\"-inf\"],\"up\":[\"8\",\"5\",\"inf\"],\"obj\":[\"2\",\"3\",\"-1\"],\"sense\":1}"});
+   v.push_back({".lp", "Minimize\n cost: x + 0.5 y + 1e1 z\nSubject To\n r1: 2 x + 3 y >= 6\n r2: x - y + z <= 4\n r3: z - x >= -3\nBounds\n y >= 1\n z >= -2\n z <= +inf\nEnd\n",
+      "{\"rows\":[[[0,\"2\"],[1,\"3\"]],[[0,\"1\"],[1,\"-1\"],[2,\"1\"]],[[0,\"-1\"],[2,\"1\"]]],\"lhs\":[\"6\",\"-inf\",\"-3\"],\"rhs\":[\"inf\",\"4\",\"inf\"],\"lo\":[\"0\",\"1\",\"-2\"],\"up\":[\"inf\",\"inf\",\"inf\"],\"obj\":[\"1\",\"1/2\",\"10\"],\"sense\":-1}"});
+   return v;
+}
+static std::string mutate(Rng& g, const std::string& in, std::string& what)
+{
+   std::string t = in; std::vector<std::string> lines; { std::istringstream is(in); std::string l; while(std::getline(is, l)) lines.push_back(l); }
+   auto join = [&]() { std::string o; for(auto& l : lines) { o += l; o += '\n'; } return o; };
+   int k = g.R(0, 15);
+   switch(k)
+   {
+   case 0: what = "truncate"; return t.substr(0, (size_t)g.R(0, (int)t.size()));
+   case 1: what = "deleteLine"; if(!lines.empty()) lines.erase(lines.begin() + g.R(0, (int)lines.size() - 1)); return join();
+   case 2: what = "duplicateLine"; if(!lines.empty()) { int i = g.R(0, (int)lines.size() - 1); lines.insert(lines.begin() + i, lines[(size_t)i]); } return join();
+   case 3: what = "swapLines"; if(lines.size() > 1) std::swap(lines[(size_t)g.R(0, (int)lines.size() - 1)], lines[(size_t)g.R(0, (int)lines.size() - 1)]); return join();
+   case 4: what = "nulByte"; if(!t.empty()) t[(size_t)g.R(0, (int)t.size() - 1)] = '\0'; return t;
+   case 5: what = "flipChar"; if(!t.empty()) t[(size_t)g.R(0, (int)t.size() - 1)] = (char)g.R(1, 255); return t;
+   case 6: { what = "longName"; std::string big((size_t)g.R(200, 9000), 'n'); size_t p = t.find_first_of("xyabcr"); if(p != std::string::npos) t.insert(p, big); return t; }
+   case 7: { what = "longLine"; std::string big((size_t)g.R(9000, 70000), ' '); if(!lines.empty()) lines[(size_t)g.R(0, (int)lines.size() - 1)] += big + "1"; return join(); }
+   case 8: { what = "hugeExponent"; size_t p = t.find_first_of("0123456789"); if(p != std::string::npos) { size_t q = t.find_first_not_of("0123456789.", p); t.insert(q == std::string::npos ? t.size() : q, g.coin() ? "e99999" : "e-99999"); } return t; }
+   case 9: { what = "manyDigits"; size_t p = t.find_first_of("0123456789"); if(p != std::string::npos) t.insert(p, std::string((size_t)g.R(400, 5000), '9')); return t; }
+   case 10: what = "empty"; return "";
+   case 11: { what = "binaryJunk"; std::string j; int n = g.R(1, 400); for(int i = 0; i < n; i++) j += (char)g.R(0, 255); return g.coin() ? j : t.substr(0, t.size() / 2) + j; }
+   case 12: { what = "dropSectionHeader"; for(size_t i = 0; i < lines.size(); i++) if(!lines[i].empty() && lines[i][0] != ' ' && lines[i][0] != '\\' && g.coin(1, 3)) { lines.erase(lines.begin() + (long)i); break; } return join(); }
+   case 13: { what = "duplicateName"; size_t a = t.find("r2"), b = t.find("c2"); size_t p = a != std::string::npos ? a : b; if(p != std::string::npos) t[p + 1] = '1'; return t; }
+   case 14: { what = "crlf"; std::string o; for(char ch : t) { if(ch == '\n') o += '\r'; o += ch; } return o; }
+   default: { what = "tokenSoup"; static const char* toks[] = {"ROWS", "COLUMNS", "RHS", "RANGES", "BOUNDS", "ENDATA", "NAME", "OBJSENSE", "MAX", "Subject To", "Bounds", "End", "free", "inf", "-inf", "<=", ">=", "=", "+", "-", ":", "1e308", "nan", "Generals", "Binary", " MI ", " BV ", " UP ", "'MARKER'", "MARKER", "'INTORG'"};
+              int n = g.R(1, 6); for(int i = 0; i < n; i++) { size_t p = (size_t)g.R(0, (int)t.size()); t.insert(p, std::string(" ") + toks[g.R(0, 30)] + " "); } return t; }
+   }
+}
+static void writeText(const std::string& fn, const std::string& text) { FILE* f = fopen(fn.c_str(), "wb"); if(f) { fwrite(text.data(), 1, text.size(), f); fclose(f); } }
+static void wlReaders(Ctx& c, int nexec, int len)
+{
+   signal(SIGALRM, onAlarm);
+   std::vector<SeedFile> hand = handWritten();
+   for(int e = 0; e < nexec; e++)
+   {
+      T().line("{\"a\":\"Reset\"}");
+      c.objs.clear(); c.nextId = 0; g_wellScaled = true;
+      int o = createObj(c); SoPlex& s = *c.objs[o];
+      bool rational = c.rng.coin(1, 3);
+      if(rational) { setInt(c, o, "SYNCMODE", SoPlex::SYNCMODE, SoPlex::SYNCMODE_AUTO); setInt(c, o, "READMODE", SoPlex::READMODE, SoPlex::READMODE_RATIONAL); }
+      for(int step = 0; step < len; step++)
+      {
+         // ---- pick a seed file
+         SeedFile sf;
+         if(c.rng.coin(1, 3)) sf = hand[(size_t)c.rng.R(0, (int)hand.size() - 1)];
+         else
+         {
+            LPData L = genWitnessed(c.rng, 4, "OPT", 0); SoPlex w; w.setIntParam(SoPlex::VERBOSITY, 0); w.setIntParam(SoPlex::OBJSENSE, L.sense);
+            for(int j = 0; j < L.n; j++) { DSVector ev; w.addColReal(LPCol(L.c[j], ev, L.up[j], L.lo[j])); } for(int i = 0; i < L.m; i++) { DSVector v; spRowOf(L, i, v); w.addRowReal(LPRow(L.lhs[i], v, L.rhs[i])); }
+            bool hasFree = false; for(int i = 0; i < L.m; i++) if(L.lhs[i] <= -infinity && L.rhs[i] >= infinity) hasFree = true;
+            sf.ext = (c.rng.coin() && !hasFree) ? ".mps" : ".lp"; std::string tmp = g_tmpdir + "/seed" + sf.ext; w.writeFile(tmp.c_str()); std::ifstream f(tmp, std::ios::binary); std::stringstream ss; ss << f.rdbuf(); sf.text = ss.str(); sf.expect = "";
+         }
+         std::string what = "none", text = sf.text; if(c.rng.coin(3, 4)) text = mutate(c.rng, sf.text, what);
+         bool gz = false;
+         std::string fn = g_tmpdir + "/in" + std::to_string(e) + "_" + std::to_string(step) + sf.ext; writeText(fn, text);
+         if(c.rng.coin(1, 8)) { std::string cmd = "gzip -f '" + fn + "' 2>/dev/null"; if(system(cmd.c_str()) == 0) { fn += ".gz"; gz = true; } }
+         // ---- read
+         NameSet rn, cn; pending() = "readFile " + what + " " + sf.ext + (gz ? ".gz" : "") + (rational ? " rational" : " real");
+         alarm(10); bool ret = s.readFile(fn.c_str(), &rn, &cn); alarm(0);
+         c.modsSinceBasis[o] = 1; c.noInternal[o] = false;
+         {
+            J ev; ev.s("a", "readFile").i("o", o).s("ext", sf.ext).b("gz", gz).b("rational", rational).s("mutation", what).b("ret", ret).i("nRowNames", rn.num()).i("nColNames", cn.num())
+              .raw("expect", (what == "none" && !sf.expect.empty()) ? sf.expect : std::string("{}")).b("hasExpect", what == "none" && !sf.expect.empty()).i("bytes", (long)text.size());
+            emit(c, o, ev);
+         }
+         remove(fn.c_str());
+         // ---- the object must be usable: solve what was read (any honest outcome), clear, load a witnessed LP, solve it correctly
+         bool tame = true;          // a solve is only judged on LPs without absurd numbers (a reader accepts 1e+5000 as a coefficient)
+         for(int j = 0; j < s.numCols() && tame; j++) { tame = std::fabs(s.objReal(j)) < 1e15; DSVector cv; s.getColVectorReal(j, cv); for(int k = 0; k < cv.size(); k++) tame = tame && std::fabs(cv.value(k)) < 1e15 && std::fabs(cv.value(k)) > 1e-15; }
+         if(ret && tame && s.numRows() > 0 && s.numCols() > 0 && s.numRows() <= 8 && s.numCols() <= 8 && !rational && c.rng.coin())
+         { setInt(c, o, "ITERLIMIT", SoPlex::ITERLIMIT, 50); SolveOpts so; so.complete = false; so.limited = true; alarm(30); optimize(c, o, so); alarm(0); setInt(c, o, "ITERLIMIT", SoPlex::ITERLIMIT, -1); }
+         if(c.rng.coin(1, 2))
+         {
+            pending() = "clearLPReal after read"; s.clearLPReal(); modEvent(c, o, "clearLP", "{}");
+            if(!rational)
+            {
+               LPData L = genWitnessed(c.rng, 4, c.rng.coin(3, 4) ? "OPT" : "INF", 0); loadLP(c, o, L, true); witness(c, o, L);
+               if(s.numRows() > 0 && s.numCols() > 0) { SolveOpts so; so.complete = true; alarm(30); optimize(c, o, so); alarm(0); }
+               // a basis file for this LP: unchanged or mutated
+               if(s.hasBasis() && c.rng.coin())
+               {
+                  std::string bf = g_tmpdir + "/b" + std::to_string(e) + "_" + std::to_string(step) + ".bas"; s.writeBasisFile(bf.c_str());
+                  std::ifstream f(bf, std::ios::binary); std::stringstream ss; ss << f.rdbuf(); std::string bt = ss.str(), bw = "none"; if(c.rng.coin(3, 4)) bt = mutate(c.rng, bt, bw); writeText(bf, bt);
+                  pending() = "readBasisFile " + bw; alarm(10); bool br = s.readBasisFile(bf.c_str()); alarm(0); remove(bf.c_str());
+                  J ev; ev.s("a", "readBasisFuzz").i("o", o).s("mutation", bw).b("ret", br); emit(c, o, ev); c.modsSinceBasis[o] = 1;
+                  SolveOpts so; so.complete = true; alarm(30); optimize(c, o, so); alarm(0);
+               }
+               s.clearLPReal(); modEvent(c, o, "clearLP", "{}");
+            }
+         }
+      }
+   }
+}
+
 // ---------------------------------------------------------------- C14: basis files
 static std::string fileTokens(const std::string& fn)
 {
@@ -2052,6 +2164,7 @@ static int runWorkload(Ctx& c, const std::string& wl, int len)
    else if(wl == "basfile") wlBasFile(c, 1, len);
    else if(wl == "exact") wlExact(c, 1, len, 5);
    else if(wl == "exactbig") wlExact(c, 1, len, 12);
+   else if(wl == "readers") { wlReaders(c, 1, len); }
    else if(wl == "presolve") { wlPresolve(c, 1, len); }
    else if(wl == "cint") { wlCInt(c, 1, len); }
    else if(wl == "binvq") { g_wellScaled = false; wlBinvQ(c, 1, len); }
@@ -2069,6 +2182,9 @@ static int runWorkload(Ctx& c, const std::string& wl, int len)
 // every execution runs in its own child process: a crash ends that execution (its trace ends in a Crash line)
 // but not the remaining executions of the shard
 #include <sys/wait.h>
+#if defined(__SANITIZE_ADDRESS__)
+extern "C" int __lsan_do_recoverable_leak_check();
+#endif
 int main(int argc, char** argv)
 {
    if(argc < 6) { fprintf(stderr, "usage: api_drv <workload> <seed> <nexec> <len> <out>\n"); return 2; }
@@ -2085,9 +2201,14 @@ int main(int argc, char** argv)
       if(pid == 0)
       {
          T().f = fopen(argv[5], "a"); if(!T().f) _exit(2);
+         setvbuf(T().f, nullptr, _IOLBF, 1 << 16);          // whole lines only: a dying process must not leave half an event behind
          if(!nofork) installCrashHandlers();
          Ctx c(seed * 1000003UL + (unsigned long)e); g_execIndex = e; g_nexec = nexec;
          int rc = runWorkload(c, wl, len);
+#if defined(__SANITIZE_ADDRESS__)
+         c.objs.clear();
+         if(__lsan_do_recoverable_leak_check()) T().line("{\"a\":\"Crash\",\"what\":\"memory leak reported by LeakSanitizer\",\"during\":\"execution\"}");
+#endif
          T().close();
          if(!nofork) _exit(rc);
          if(rc) return rc;
